@@ -38,6 +38,12 @@ var propStandins = map[string][]Standin{
 		Bound:   "stability of a view over its lifetime (the copy-on-write discipline of every writer in the manager; only the enumeration kernel of a view is under contract): 80 (quick) / 600 (thorough) seeded histories of 12 / 16 manager calls out of AddTag (mark, tag, service with 6 definitions), mark add / mark delete, definition updates, imports of 4 more streams (up to 16), small imports of one new conversation in a capture of its own (up to 12; enough of them trigger merges that replace files a held view references), more data for an old small conversation alone in its capture, opening a view (at most 3 alive, a third of the histories start on an empty service), releasing a view; after every call a fresh view must still show every stream an earlier fresh view showed, with the same client endpoint (nothing reported processed disappears or changes identity), and every live view is asked again - all streams with byte counts, HasTag for every tag it knew when it was opened, and searches for and against each of these tags - and must answer exactly as it did when it was opened. Background jobs (tagging, merging) run as they come; their interleaving is not controlled",
 		Timeout: 10 * time.Minute,
 	}},
+	"C08": {{
+		Name: "batching", Pkg: "internal/index/manager", TestFile: "batching_standin_test.go", TestName: "TestC08Standin", OutEnv: "C08_OUT",
+		EnvQuick: []string{"C08_ROUNDS=10"}, EnvThorough: []string{"C08_ROUNDS=120"},
+		Bound:   "independence of the import result from batching and arrival order (replay of older captures, reassembly state across captures, classification of streams as added/updated/reset; only the choice of stream ids is under contract): 10 (quick) / 120 (thorough) seeded rounds of 2-6 UDP conversations with 1-4 datagrams each (both directions, 5 payload words, gaps of 1-30 s, interleaved in time), cut chronologically into 1-4 capture files; the files are imported into separate services (a) all in one call, (b) one by one in order, (c) one by one in a shuffled order, (d) one by one with a restart of the service after every capture; (b)-(d) must end up showing exactly what (a) shows (per stream: client and server endpoint, payload per direction in order), (a) must show one stream per conversation, and within a service after every capture every stream id seen before still names the same pair of endpoints and no pair of endpoints is visible under two ids. Not generated: TCP (reassembly, retransmissions, reordering), IPv6, inactivity time-outs, snapshots (they need 100000 packets), captures larger than one batch",
+		Timeout: 10 * time.Minute,
+	}},
 	"C12": {{
 		Name: "kill-restart", Pkg: "internal/index/manager", TestFile: "crash_standin_test.go", TestName: "TestC12Standin", OutEnv: "C12_OUT",
 		EnvQuick: []string{"C12_HISTORIES=15", "C12_LEN=24"}, EnvThorough: []string{"C12_HISTORIES=150", "C12_LEN=30"},
